@@ -1,13 +1,14 @@
 (* C02, triangle / polyline part - bounding boxes contain everything drawn; transparent draws nothing.
    Statements only; proofs in Proofs/Triangle.v, Proofs/Tristyled.v.  Proved for what does not go through the thick-stroke
    machinery (ThickSegment / LineJoin / edges_bounding_box): triangles with stroke width 0, the unstyled points, thin
-   polylines against Polyline::bounding_box(); thick strokes are PARTIAL (search suites p_bbox, p_tri_styled). *)
+   polylines against the styled box; thick strokes: Properties/C02_join.v and the search suites p_bbox, p_tri_styled. *)
 From EG Require Import Base.Prelude Model.Geometry Model.Line Model.Style Model.Polyline Model.Triangle Model.Tristyled
-  Proofs.Triangle Proofs.Tristyled.
+  Proofs.Triangle Proofs.Tristyled Proofs.Tribridge.
+From EG Require Model.Join.
 
 (* transparent styles draw nothing, whatever the scanline generator yields *)
-Theorem C02_tri_triangle_transparent : forall st lines, is_transparent st = true ->
-  tri_draw_styled st lines = [] /\ tri_styled_pixels st lines = [].
+Theorem C02_tri_triangle_transparent : forall st rows, is_transparent st = true ->
+  tri_draw_styled st (for_sequence rows) = [] /\ tri_styled_pixels st rows = [].
 Proof. exact tri_transparent_draws_nothing. Qed.
 
 Theorem C02_tri_polyline_transparent_thin : forall st pl, is_transparent st = true -> 0 <= stroke_width st <= 1 ->
@@ -33,10 +34,19 @@ Proof. exact tri_w0_in_bbox. Qed.
 Theorem C02_tri_edge_lines_in_bbox : forall t p, In p (tri_fill_edges t) -> contains (tri_bounding_box t) p = true.
 Proof. exact fill_edges_in_bbox. Qed.
 
-(* thin polyline (stroke width <= 1): every pixel lies in Polyline::bounding_box().
-   PARTIAL with respect to C02: the box of the Styled polyline is computed from the thick segments even for width 1
-   (polyline/styled.rs:20-37) and is not modelled; that it contains Polyline::bounding_box's pixels is compared by search. *)
-Theorem C02_tri_polyline_thin_in_bbox_partial : forall st pl p c,
+(* thin polyline (stroke width <= 1): every pixel lies in the STYLED bounding box.  Styled<Polyline>::bounding_box() is
+   untranslated_bounding_box(..).translate(self.translate) (polyline/styled.rs:16-41, 186-188): for a visible stroke and at least
+   two vertices the box of the thick segments of the untranslated vertices (Model/Join.v poly_thick_bounding_box, built through
+   ThickSegmentIter / LineJoin also for width 1), moved by the translate field.  pt_in_i32: vertex coordinates are i32.
+   With width 1 every line join collapses to its middle vertex (Proofs/TriJoinW1.v), so the box contains every vertex. *)
+Theorem C02_tri_polyline_thin_in_styled_bbox : forall st tr vs bb p c,
+  0 <= stroke_width st <= 1 -> Forall (fun v => Join.pt_in_i32 v = true) vs ->
+  Join.poly_thick_bounding_box vs (stroke_width st) = Some bb ->
+  In (p, c) (poly_styled_pixels_thin st (PL tr vs)) -> contains (translate_rect bb tr) p = true.
+Proof. exact poly_thin_in_styled_bbox. Qed.
+
+(* ... and in the box of the unstyled primitive, Polyline::bounding_box() *)
+Theorem C02_tri_polyline_thin_in_primitive_bbox : forall st pl p c,
   In (p, c) (poly_styled_pixels_thin st pl) -> contains (polyline_bounding_box pl) p = true.
 Proof. exact poly_thin_in_bbox. Qed.
 
